@@ -143,3 +143,287 @@ class CallLog:
 
     def clear(self):
         del self.calls[:]
+
+
+# --------------------------------------------------------------------------------------------------------------
+# generated mini-scenarios (dicts accepted by PrimaiteGame.from_config / PrimaiteGymEnv)
+# --------------------------------------------------------------------------------------------------------------
+def host_actions(node: str, services=("dns-client", "ftp-client"), apps=("web-browser",), folder="docs", file="a.txt"):
+    """Action-map entries (action, options) addressing the components of one host."""
+    acts = []
+    for s in services:
+        for verb in ("scan", "stop", "start", "pause", "resume", "restart", "disable", "enable", "fix"):
+            acts.append((f"node-service-{verb}", {"node_name": node, "service_name": s}))
+    for a in apps:
+        for verb in ("execute", "scan", "close", "fix"):
+            acts.append((f"node-application-{verb}", {"node_name": node, "application_name": a}))
+    for verb in ("scan", "delete", "restore", "corrupt", "access", "checkhash", "repair"):
+        acts.append((f"node-file-{verb}", {"node_name": node, "folder_name": folder, "file_name": file}))
+    acts.append(("node-file-create", {"node_name": node, "folder_name": folder, "file_name": "new.txt"}))
+    acts.append(("node-file-create", {"node_name": node, "folder_name": folder, "file_name": file}))
+    for verb in ("scan", "checkhash", "repair", "restore"):
+        acts.append((f"node-folder-{verb}", {"node_name": node, "folder_name": folder}))
+    acts.append(("node-folder-create", {"node_name": node, "folder_name": "newfolder"}))
+    acts.append(("node-folder-create", {"node_name": node, "folder_name": folder}))
+    for verb in ("enable", "disable"):
+        acts.append((f"host-nic-{verb}", {"node_name": node, "nic_num": 1}))
+    for a in ("node-os-scan", "node-shutdown", "node-startup", "node-reset"):
+        acts.append((a, {"node_name": node}))
+    acts.append(("node-application-install", {"node_name": node, "application_name": "dos-bot"}))
+    acts.append(("node-application-remove", {"node_name": node, "application_name": "dos-bot"}))
+    acts.append(("node-application-remove", {"node_name": node, "application_name": apps[0]}))
+    return acts
+
+
+def missing_target_actions(node: str):
+    """Actions naming components that do not exist."""
+    return [
+        ("node-service-stop", {"node_name": node, "service_name": "no-such-service"}),
+        ("node-application-execute", {"node_name": node, "application_name": "no-such-app"}),
+        ("node-file-scan", {"node_name": node, "folder_name": "nofolder", "file_name": "nofile"}),
+        ("node-folder-scan", {"node_name": node, "folder_name": "nofolder"}),
+        ("host-nic-disable", {"node_name": node, "nic_num": 7}),
+        ("node-shutdown", {"node_name": "no-such-node"}),
+        ("node-file-delete", {"node_name": node, "folder_name": "nofolder", "file_name": "nofile"}),
+    ]
+
+
+def router_actions(router: str):
+    acts = []
+    for pos in (0, 1, 23, 24, -1):
+        acts.append(
+            (
+                "router-acl-add-rule",
+                dict(
+                    target_router=router, position=pos, permission="DENY", src_ip="192.168.1.2", src_wildcard="NONE",
+                    src_port="ALL", dst_ip="ALL", dst_wildcard="NONE", dst_port="ALL", protocol_name="ALL",
+                ),
+            )
+        )
+        acts.append(("router-acl-remove-rule", {"target_router": router, "position": pos}))
+    for verb in ("enable", "disable"):
+        acts.append((f"network-port-{verb}", {"target_nodename": router, "port_num": 1}))
+    return acts
+
+
+def mini_scenario(
+    kind: str = "switched",
+    max_episode_length: int = 8,
+    action_masking: bool = True,
+    flatten_obs: bool = False,
+    extra_actions=(),
+    with_green: bool = True,
+    with_red: bool = True,
+    seed: int = 3,
+):
+    """kind: 'switched' (2 hosts + server on a switch) or 'routed' (host - router - server)."""
+    nodes = []
+    links = []
+    if kind == "switched":
+        nodes.append({"type": "switch", "hostname": "switch_1", "num_ports": 4, "start_up_duration": 0})
+        gw = None
+        lan_b = "192.168.1"
+    else:
+        nodes.append(
+            {
+                "type": "router", "hostname": "router_1", "num_ports": 3, "start_up_duration": 0,
+                "ports": {1: {"ip_address": "192.168.1.1", "subnet_mask": "255.255.255.0"}, 2: {"ip_address": "192.168.2.1", "subnet_mask": "255.255.255.0"}},
+                "acl": {10: {"action": "PERMIT"}},
+            }
+        )
+        gw = True
+        lan_b = "192.168.2"
+
+    def host(name, typ, ip, extra):
+        d = {"hostname": name, "type": typ, "ip_address": ip, "subnet_mask": "255.255.255.0", "start_up_duration": 1, "shut_down_duration": 1}
+        if gw:
+            d["default_gateway"] = ip.rsplit(".", 1)[0] + ".1"
+        d.update(extra)
+        return d
+
+    nodes.append(
+        host(
+            "client_1", "computer", "192.168.1.2",
+            {
+                "applications": [{"type": "web-browser", "options": {"target_url": "http://arcd.com/"}}, {"type": "database-client", "options": {"db_server_ip": lan_b + ".10", "server_password": "pw"}}],
+                "services": [{"type": "dns-client"}, {"type": "ftp-client"}],
+                "folders": [{"folder_name": "docs", "files": [{"file_name": "a.txt"}]}],
+                "dns_server": lan_b + ".10",
+            },
+        )
+    )
+    nodes.append(
+        host(
+            "client_2", "computer", "192.168.1.3",
+            {
+                "applications": [{"type": "web-browser", "options": {"target_url": "http://arcd.com/"}}, {"type": "data-manipulation-bot", "options": {"server_ip": lan_b + ".10", "server_password": "pw", "payload": "DELETE", "port_scan_p_of_success": 1.0, "data_manipulation_p_of_success": 1.0}}],
+                "dns_server": lan_b + ".10",
+            },
+        )
+    )
+    nodes.append(
+        host(
+            "server_1", "server", lan_b + ".10",
+            {
+                "services": [{"type": "dns-server", "options": {"domain_mapping": {"arcd.com": lan_b + ".10"}}}, {"type": "web-server"}, {"type": "database-service", "options": {"db_password": "pw"}}, {"type": "ftp-server"}],
+                "folders": [{"folder_name": "docs", "files": [{"file_name": "a.txt"}]}],
+            },
+        )
+    )
+    hub = "switch_1" if kind == "switched" else "router_1"
+    if kind == "switched":
+        for i, n in enumerate(("client_1", "client_2", "server_1"), start=1):
+            links.append({"endpoint_a_hostname": hub, "endpoint_a_port": i, "endpoint_b_hostname": n, "endpoint_b_port": 1, "bandwidth": 100})
+    else:
+        nodes.append({"type": "switch", "hostname": "switch_1", "num_ports": 4, "start_up_duration": 0})
+        links.append({"endpoint_a_hostname": "router_1", "endpoint_a_port": 1, "endpoint_b_hostname": "switch_1", "endpoint_b_port": 4, "bandwidth": 100})
+        links.append({"endpoint_a_hostname": "switch_1", "endpoint_a_port": 1, "endpoint_b_hostname": "client_1", "endpoint_b_port": 1, "bandwidth": 100})
+        links.append({"endpoint_a_hostname": "switch_1", "endpoint_a_port": 2, "endpoint_b_hostname": "client_2", "endpoint_b_port": 1, "bandwidth": 100})
+        links.append({"endpoint_a_hostname": "router_1", "endpoint_a_port": 2, "endpoint_b_hostname": "server_1", "endpoint_b_port": 1, "bandwidth": 100})
+
+    acts = [("do-nothing", {})]
+    acts += host_actions("client_1")
+    acts += host_actions("server_1", services=("web-server", "database-service"), apps=(), folder="docs", file="a.txt") if False else []
+    acts += missing_target_actions("client_1")
+    if kind != "switched":
+        acts += router_actions("router_1")
+    acts += list(extra_actions)
+    action_map = {i: {"action": a, "options": o} for i, (a, o) in enumerate(acts)}
+
+    obs_hosts = [
+        {"hostname": "client_1", "services": [{"service_name": "dns-client"}], "applications": [{"application_name": "web-browser"}], "folders": [{"folder_name": "docs", "files": [{"file_name": "a.txt"}]}]},
+        {"hostname": "server_1", "services": [{"service_name": "web-server"}, {"service_name": "database-service"}]},
+        {"hostname": "client_2"},
+    ]
+    nodes_opts = {
+        "hosts": obs_hosts, "num_services": 2, "num_applications": 1, "num_folders": 1, "num_files": 1, "num_nics": 1,
+        "include_num_access": True, "include_nmne": True, "monitored_traffic": {"icmp": ["NONE"], "tcp": ["DNS", "HTTP"]},
+        "ip_list": ["192.168.1.2", "192.168.1.3"], "wildcard_list": ["0.0.0.1"], "port_list": ["HTTP", "DNS"], "protocol_list": ["ICMP", "TCP", "UDP"],
+        "num_rules": 4, "num_ports": 2,
+    }
+    if kind != "switched":
+        nodes_opts["routers"] = [{"hostname": "router_1"}]
+    link_refs = [f"{l['endpoint_a_hostname']}:eth-{l['endpoint_a_port']}<->{l['endpoint_b_hostname']}:eth-{l['endpoint_b_port']}" for l in links]
+    agents = []
+    if with_green:
+        agents.append(
+            {
+                "ref": "green_1", "team": "GREEN", "type": "periodic-agent",
+                "action_space": {"action_map": {0: {"action": "do-nothing", "options": {}}, 1: {"action": "node-application-execute", "options": {"node_name": "client_2", "application_name": "web-browser"}}}},
+                "agent_settings": {"possible_start_nodes": ["client_2"], "target_application": "web-browser", "start_step": 1, "frequency": 2, "variance": 1},
+                "reward_function": {"reward_components": [{"type": "webpage-unavailable-penalty", "weight": 0.25, "options": {"node_hostname": "client_2"}}]},
+            }
+        )
+    if with_red:
+        agents.append(
+            {
+                "ref": "red_1", "team": "RED", "type": "red-database-corrupting-agent",
+                "action_space": {"action_map": {0: {"action": "do-nothing", "options": {}}, 1: {"action": "node-application-execute", "options": {"node_name": "client_2", "application_name": "data-manipulation-bot"}}}},
+                "agent_settings": {"possible_start_nodes": ["client_2"], "target_application": "data-manipulation-bot", "start_step": 2, "frequency": 2, "variance": 0},
+            }
+        )
+    rew = [
+        {"type": "database-file-integrity", "weight": 0.4, "options": {"node_hostname": "server_1", "folder_name": "database", "file_name": "database.db"}},
+        {"type": "web-server-404-penalty", "weight": 0.3, "options": {"node_hostname": "server_1", "service_name": "web-server"}},
+        {"type": "action-penalty", "weight": 1.0, "options": {"action_penalty": -0.25, "do_nothing_penalty": 0.0}},
+    ]
+    if with_green:
+        rew.append({"type": "shared-reward", "weight": 1.0, "options": {"agent_name": "green_1"}})
+    agents.append(
+        {
+            "ref": "defender", "team": "BLUE", "type": "proxy-agent",
+            "observation_space": {"type": "custom", "options": {"components": [
+                {"type": "nodes", "label": "NODES", "options": nodes_opts},
+                {"type": "links", "label": "LINKS", "options": {"link_references": link_refs}},
+                {"type": "none", "label": "ICS", "options": {}},
+            ]}},
+            "action_space": {"action_map": action_map},
+            "reward_function": {"reward_components": rew},
+            "agent_settings": {"flatten_obs": flatten_obs, "action_masking": action_masking},
+        }
+    )
+    return {
+        "metadata": {"version": 3.0},
+        "io_settings": {"save_agent_actions": False, "save_step_metadata": False, "save_pcap_logs": False, "save_sys_logs": False, "save_agent_logs": False},
+        "game": {"max_episode_length": max_episode_length, "ports": ["ARP", "DNS", "HTTP", "POSTGRES_SERVER", "FTP"], "protocols": ["ICMP", "TCP", "UDP"], "seed": seed,
+                 "thresholds": {"nmne": {"high": 10, "medium": 5, "low": 0}, "file_access": {"high": 10, "medium": 5, "low": 2}, "app_executions": {"high": 5, "medium": 3, "low": 2}}},
+        "agents": agents,
+        "simulation": {"network": {"nodes": nodes, "links": links}},
+    }
+
+
+# --------------------------------------------------------------------------------------------------------------
+# pure-Python membership walker over a real gymnasium space (space.contains is numpy/C)
+# --------------------------------------------------------------------------------------------------------------
+def space_violations(space, obs, path="obs"):
+    """Return a list of human-readable reasons why obs is not in space ([] = member). Works on symbolic ints."""
+    from gymnasium import spaces
+
+    out = []
+    if isinstance(space, spaces.Dict):
+        if not isinstance(obs, dict):
+            return [f"{path}: expected dict, got {type(obs).__name__}"]
+        sk, ok = list(space.spaces.keys()), list(obs.keys())
+        if set(sk) != set(ok):
+            out.append(f"{path}: keys differ: space-only {sorted(map(str, set(sk) - set(ok)))}, obs-only {sorted(map(str, set(ok) - set(sk)))}")
+        for k in sk:
+            if k in obs:
+                out.extend(space_violations(space.spaces[k], obs[k], f"{path}[{k!r}]"))
+        return out
+    if isinstance(space, spaces.Discrete):
+        if isinstance(obs, bool) or not _is_int(obs):
+            return [f"{path}: Discrete({space.n}) got non-int {type(obs).__name__}"]
+        lo = int(space.start)
+        if not (lo <= obs):
+            return [f"{path}: below Discrete start {lo}"]
+        if not (obs < lo + int(space.n)):
+            return [f"{path}: value not below {lo + int(space.n)} (Discrete({space.n}))"]
+        return []
+    if isinstance(space, spaces.MultiBinary):
+        try:
+            vals = list(obs)
+        except TypeError:
+            return [f"{path}: MultiBinary expects a sequence"]
+        if len(vals) != int(space.n):
+            return [f"{path}: MultiBinary length {len(vals)} != {space.n}"]
+        for i, v in enumerate(vals):
+            if not ((v == 0) or (v == 1)):
+                out.append(f"{path}[{i}]: not binary")
+        return out
+    if isinstance(space, spaces.MultiDiscrete):
+        vals = list(obs)
+        if len(vals) != len(space.nvec):
+            return [f"{path}: MultiDiscrete length"]
+        for i, (v, n) in enumerate(zip(vals, space.nvec)):
+            if not (0 <= v) or not (v < int(n)):
+                out.append(f"{path}[{i}]: outside MultiDiscrete({int(n)})")
+        return out
+    if isinstance(space, spaces.Box):
+        import numpy as np
+
+        arr = np.asarray(obs)
+        if arr.shape != space.shape:
+            return [f"{path}: Box shape {arr.shape} != {space.shape}"]
+        if not (np.all(arr >= space.low) and np.all(arr <= space.high)):
+            return [f"{path}: outside Box bounds"]
+        return []
+    if isinstance(space, spaces.Tuple):
+        if len(obs) != len(space.spaces):
+            return [f"{path}: tuple length"]
+        for i, (s, o) in enumerate(zip(space.spaces, obs)):
+            out.extend(space_violations(s, o, f"{path}[{i}]"))
+        return out
+    return [f"{path}: unsupported space {type(space).__name__}"]
+
+
+def _is_int(x) -> bool:
+    import numbers
+
+    try:
+        import numpy as np
+
+        if isinstance(x, np.integer):
+            return True
+    except Exception:
+        pass
+    return isinstance(x, numbers.Integral)
